@@ -12,7 +12,7 @@ SHARD = 150
 ANN_DERIVE = ["copy", "crop_loose", "crop_strict", "crop_intersection", "extrude_loose", "extrude_strict",
               "extrude_intersection", "support", "subset", "subset_inv", "rename_labels_copy", "rename_labels_gen",
               "rename_tracks", "relabel_tracks", "update_copy", "empty"]
-ANN_TO_TL = ["get_timeline", "label_timeline", "label_support", "get_overlap"]
+ANN_TO_TL = ["get_timeline", "label_timeline", "label_support", "get_overlap", "get_overlap_labels"]
 TL_DERIVE = ["tl_copy", "tl_copy_func", "tl_crop_loose", "tl_crop_strict", "tl_crop_intersection", "tl_extrude",
              "tl_support", "tl_gaps", "tl_segmentation", "tl_union", "tl_or", "tl_get_overlap", "tl_empty"]
 TL_TO_ANN = ["to_annotation"]
@@ -105,14 +105,26 @@ def _prime(a, cache, labels):
 
 
 def _derive(tb, op, a, t, other, sup, labels):
+    """derive; plain Python containers handed over as arguments (label sets / lists, mappings) must come back
+    unchanged as well"""
+    import copy as _copy
+    args = {"lset": set(labels[:2]) | {"zz_absent"}, "llist": list(labels[:1]) + ["zz_absent"],
+            "mapping": {labels[0]: labels[1], "zz_absent": "zz_other"}}
+    before = _copy.deepcopy(args)
+    d = _derive1(tb, op, a, t, other, sup, labels, args)
+    assert args == before, f"{op} changed a container passed as argument: {before} -> {args}"
+    return d
+
+
+def _derive1(tb, op, a, t, other, sup, labels, args):
     from pyannote.core import Segment
     if op == "copy": return a.copy()
     if op.startswith("crop_"): return a.crop(sup, mode=op[5:])
     if op.startswith("extrude_"): return a.extrude(sup, mode=op[8:])
     if op == "support": return a.support()
-    if op == "subset": return a.subset(labels[:2])
-    if op == "subset_inv": return a.subset(labels[:1], invert=True)
-    if op == "rename_labels_copy": return a.rename_labels(mapping={labels[0]: labels[1]})
+    if op == "subset": return a.subset(args["lset"])
+    if op == "subset_inv": return a.subset(args["llist"], invert=True)
+    if op == "rename_labels_copy": return a.rename_labels(mapping=args["mapping"])
     if op == "rename_labels_gen": return a.rename_labels(generator="int")
     if op == "rename_tracks": return a.rename_tracks()
     if op == "relabel_tracks": return a.relabel_tracks(generator="int")
@@ -122,6 +134,7 @@ def _derive(tb, op, a, t, other, sup, labels):
     if op == "label_timeline": return a.label_timeline(labels[0])
     if op == "label_support": return a.label_support(labels[0])
     if op == "get_overlap": return a.get_overlap()
+    if op == "get_overlap_labels": return a.get_overlap(labels=args["lset"])
     if op == "to_annotation": return t.to_annotation()
     if op == "tl_copy": return t.copy()
     if op == "tl_copy_func": return t.copy(lambda s: Segment(s.start, s.end))
